@@ -98,6 +98,9 @@ def check(run):
     q = run.tier == "quick"
     run.model_check("mc/MC_HavokTag.tla", "mc/MC_HavokTag.cfg", workers=6, coverage=False)   # coverage turns off TLC's lazy-value cache: the nested writer never finishes
     run.model_check("mc/MC_Pbd.tla", "mc/MC_Pbd.cfg", workers=6, coverage=False)
+    if run.tier == "thorough":
+        # every forest of <= 5 items x every link permutation x every decided query: 2.8 million states, ~8 min
+        run.model_check("mc/MC_Pbd.tla", "mc/MC_Pbd_5.cfg", workers=8, coverage=False, timeout=3000)
     cases, n = [], 0
     for i in range(150 if q else 1500):
         cases.append(skeleton_case(rng, n, 6 if i % 5 else (40 if q else 120))); n += 1
